@@ -651,3 +651,64 @@ func verifLemmaLegacyWithoutElementMarshals(h Header) (buf []byte, err error) {
 //@   modifies p.Timestamp
 //@   ensures gap [C06]: int(p.Timestamp) == (int(old(p.Timestamp)) + int(skippedSamples)) % 4294967296
 //@ end
+
+// ===== C19 (decoder side): VLA.Unmarshal is memory-safe, bounded and reuse-safe =====
+//
+// The decoding context walks the payload with ctx.offset; every helper keeps
+// 0 <= offset <= len(payload) and reads only below len(payload).
+//@ spec (*vlaUnmarshalingContext).checkRemainingLen
+//@   requires ctx != nil && 0 <= ctx.offset
+//@   ensures def [C19]: result0 <==> len(ctx.payload) - ctx.offset >= requiredLen
+//@ end
+
+//@ spec (*VLA).unmarshalSpatialLayers
+//@   requires v != nil && ctx != nil && ctx.offset == 0
+//@   modifies v.RTPStreamID, v.RTPStreamCount, ctx.offset, ctx.slBMField, ctx.slBMs
+//@   loop 0: unroll 5 complete
+//@   loop 1: unroll 5 complete
+//@   ensures short [C19]: len(ctx.payload) == 0 ==> result0 != nil
+//@   ensures header [C19]: result0 == nil ==> v.RTPStreamID == bits(ctx.payload[0], 7, 6) && v.RTPStreamCount == bits(ctx.payload[0], 5, 4) + 1 && int(ctx.slBMField) == bits(ctx.payload[0], 3, 0)
+//@   ensures consumed [C19]: result0 == nil ==> ctx.offset == ite(bits(ctx.payload[0], 3, 0) != 0, 1, 2 + bits(ctx.payload[0], 5, 4) / 2) && ctx.offset <= len(ctx.payload)
+//@   ensures masks [C19]: result0 == nil ==> ctx.slBMs[0] <= 15 && (v.RTPStreamCount > 1 ==> ctx.slBMs[1] <= 15) && (v.RTPStreamCount > 2 ==> ctx.slBMs[2] <= 15) && (v.RTPStreamCount > 3 ==> ctx.slBMs[3] <= 15)
+//@   ensures bounded_on_error [C19]: result0 != nil ==> 0 <= ctx.offset && ctx.offset <= len(ctx.payload)
+//@ end
+
+// #tl fields and target bitrates. At most 4 streams x 4 spatial layers are
+// appended to whatever the list held on entry (Unmarshal empties it first).
+//@ spec (*VLA).unmarshalTemporalLayers
+//@   requires v != nil && ctx != nil && 1 <= v.RTPStreamCount && v.RTPStreamCount <= 4 && 0 <= ctx.offset && ctx.offset <= len(ctx.payload)
+//@   requires len(v.ActiveSpatialLayer) == 0
+//@   modifies v.ActiveSpatialLayer, v.ActiveSpatialLayer[*cap], ctx.offset
+//@   loop 0: invariant walk [C19]: 0 <= streamID && streamID <= v.RTPStreamCount && 0 <= temporalLayerIndex && temporalLayerIndex <= 4 && 0 <= ctx.offset && ctx.offset < len(ctx.payload) && len(v.ActiveSpatialLayer) <= 4 * streamID && sameSlice(ctx.payload, old(ctx.payload)) && v.RTPStreamCount == old(v.RTPStreamCount) && (fresh(v.ActiveSpatialLayer) || (sameobj(v.ActiveSpatialLayer, old(v.ActiveSpatialLayer)) && off(v.ActiveSpatialLayer) == off(old(v.ActiveSpatialLayer)) && cap(v.ActiveSpatialLayer) == cap(old(v.ActiveSpatialLayer))))
+//@   loop 0: invariant layers [C19]: forall k :: 0 <= k && k < len(v.ActiveSpatialLayer) ==> fresh(v.ActiveSpatialLayer[k].TargetBitrates) && 1 <= len(v.ActiveSpatialLayer[k].TargetBitrates) && len(v.ActiveSpatialLayer[k].TargetBitrates) <= 4
+//@   loop 0: decreases v.RTPStreamCount - streamID
+//@   loop 1: invariant walk [C19]: 0 <= spatialID && spatialID <= 4 && 0 <= streamID && streamID < v.RTPStreamCount && 0 <= temporalLayerIndex && temporalLayerIndex <= 4 && 0 <= ctx.offset && ctx.offset < len(ctx.payload) && len(v.ActiveSpatialLayer) <= 4 * streamID + spatialID && sameSlice(ctx.payload, old(ctx.payload)) && v.RTPStreamCount == old(v.RTPStreamCount) && (fresh(v.ActiveSpatialLayer) || (sameobj(v.ActiveSpatialLayer, old(v.ActiveSpatialLayer)) && off(v.ActiveSpatialLayer) == off(old(v.ActiveSpatialLayer)) && cap(v.ActiveSpatialLayer) == cap(old(v.ActiveSpatialLayer))))
+//@   loop 1: invariant layers [C19]: forall k :: 0 <= k && k < len(v.ActiveSpatialLayer) ==> fresh(v.ActiveSpatialLayer[k].TargetBitrates) && 1 <= len(v.ActiveSpatialLayer[k].TargetBitrates) && len(v.ActiveSpatialLayer[k].TargetBitrates) <= 4
+//@   loop 1: decreases 4 - spatialID
+//@   loop 2: invariant walk [C19]: 0 <= ctx.offset && ctx.offset <= len(ctx.payload) && sameSlice(ctx.payload, old(ctx.payload)) && len(v.ActiveSpatialLayer) <= 16
+//@   loop 2: invariant layers [C19]: forall k :: 0 <= k && k < len(v.ActiveSpatialLayer) ==> fresh(v.ActiveSpatialLayer[k].TargetBitrates) && 1 <= len(v.ActiveSpatialLayer[k].TargetBitrates) && len(v.ActiveSpatialLayer[k].TargetBitrates) <= 4
+//@   loop 3: invariant walk [C19]: 0 <= ctx.offset && ctx.offset <= len(ctx.payload) && sameSlice(ctx.payload, old(ctx.payload)) && len(v.ActiveSpatialLayer) <= 16
+//@   loop 3: invariant layers [C19]: forall k :: 0 <= k && k < len(v.ActiveSpatialLayer) ==> fresh(v.ActiveSpatialLayer[k].TargetBitrates) && 1 <= len(v.ActiveSpatialLayer[k].TargetBitrates) && len(v.ActiveSpatialLayer[k].TargetBitrates) <= 4
+//@   ensures bounded [C19]: 0 <= ctx.offset && ctx.offset <= len(ctx.payload) && sameSlice(ctx.payload, old(ctx.payload))
+//@   ensures count [C19]: len(v.ActiveSpatialLayer) <= 16
+//@   ensures backing [C19]: fresh(v.ActiveSpatialLayer) || (sameobj(v.ActiveSpatialLayer, old(v.ActiveSpatialLayer)) && off(v.ActiveSpatialLayer) == off(old(v.ActiveSpatialLayer)) && cap(v.ActiveSpatialLayer) == cap(old(v.ActiveSpatialLayer)))
+//@ end
+
+//@ spec (*VLA).unmarshalResolutionAndFramerate
+//@   requires v != nil && ctx != nil && 0 <= ctx.offset && ctx.offset <= len(ctx.payload) && len(v.ActiveSpatialLayer) <= 16
+//@   modifies v.HasResolutionAndFramerate, v.ActiveSpatialLayer[*], ctx.offset
+//@   loop 0: invariant walk [C19]: rangeindex <= len(v.ActiveSpatialLayer) - 1 && ctx.offset == old(ctx.offset) + 5 * (rangeindex + 1) && old(ctx.offset) + 5 * len(v.ActiveSpatialLayer) <= len(ctx.payload) && sameSlice(ctx.payload, old(ctx.payload)) && sameSlice(v.ActiveSpatialLayer, old(v.ActiveSpatialLayer)) && v.HasResolutionAndFramerate
+//@   ensures consumed [C19]: result0 == nil ==> ctx.offset == old(ctx.offset) + 5 * len(v.ActiveSpatialLayer) && ctx.offset <= len(ctx.payload) && v.HasResolutionAndFramerate
+//@   ensures short [C19]: result0 != nil ==> ctx.offset == old(ctx.offset) && len(ctx.payload) - ctx.offset < 5 * len(v.ActiveSpatialLayer)
+//@   ensures list_kept [C19]: sameSlice(v.ActiveSpatialLayer, old(v.ActiveSpatialLayer)) && sameSlice(ctx.payload, old(ctx.payload))
+//@ end
+
+// Unmarshal: never panics, never reports more bytes than it was given, and what
+// it reports does not depend on what the receiver held before.
+//@ spec (*VLA).Unmarshal
+//@   modifies v.*
+//@   ensures bounded [C19]: 0 <= result0 && result0 <= len(payload)
+//@   ensures layers_bounded [C19]: result1 == nil ==> len(v.ActiveSpatialLayer) <= 16 && v.RTPStreamCount == bits(payload[0], 5, 4) + 1 && v.RTPStreamID == bits(payload[0], 7, 6)
+//@   ensures reuse_safe [C19]: result1 == nil ==> (v.ActiveSpatialLayer == nil || fresh(v.ActiveSpatialLayer))
+//@   ensures all_consumed_without_resolution [C19]: result1 == nil && !v.HasResolutionAndFramerate ==> result0 == len(payload)
+//@ end
